@@ -245,6 +245,9 @@ inputs:
   - jsonschema:
       path: '%(verif)s/corpus/c08/constraints.json'
       package: constraints
+  - jsonschema:
+      path: '%(verif)s/corpus/c09/widgets.json'
+      package: widgets
   - cue:
       entrypoint: '%(repo)s/testdata/schemas/validation'
   - cue:
@@ -310,7 +313,7 @@ def _c13_prepare(tmp, tier):
     os.makedirs(hdir, exist_ok=True)
     lst = os.path.join(tmp, "c13_entries.txt")
     subprocess.run([os.path.join(drv.BUILD, "symgo"), "-dir", ctx["gen"], "-gen-equals", hdir, "-gen-list", lst, "-modpath", "verifgen",
-                    "-pkgs", "./equality,./constraints,./validation,./defaults"], check=True, env=drv.ENV)
+                    "-pkgs", "./equality,./constraints,./validation,./defaults,./widgets"], check=True, env=drv.ENV)
     ctx["c13h"] = hdir
     ctx["c13"] = {}
     for l in open(lst):
@@ -337,4 +340,20 @@ PROPERTIES["C13"] = {
     "bounds": {"corpus": "testdata/schemas/{equality,validation,defaults} + corpus/c08/constraints.json", "values": "depth 2 (quick) / 3 (thorough), three shape families"},
     "prepare": _c13_prepare,
     "runs": _c13_runs,
+}
+
+
+def _c09_runs(ctx):
+    return [_gen_run(ctx, "widgets", "widgets", [("widgets/zz_verif_c09.go", "harness/gen/widgets/zz_verif_c09.go")], ["VerifC09Option", "VerifC09TwoOptions"])]
+
+PROPERTIES["C09"] = {
+    "level_text": "Two-stage, bounded symbolic execution + SMT. Stage 1: the REAL generator emits Go types and builders for the corpus. Stage 2: every option of the generated builder is "
+                  "applied, with symbolic arguments (nested builders are stubs returning an arbitrary value or an arbitrary failure), to a fresh builder and the solver decides: the target "
+                  "holds the given value; every other field equals the freshly constructed default object's (frame); constructor constants are present; Build() fails iff a constraint is "
+                  "violated or a nested builder failed and otherwise returns the assembled object; two options on distinct targets each keep the other's write.",
+    "level_note": "Schema dimension: finite corpus (corpus/c09/widgets.json: constants, scalar/number/bool/array defaults, constraints, map, required and optional nested builders, enum). "
+                  "Go only: generated Python builders are outside the claim (no solver-based engine for Python in the image). Collections <= 1 entry.",
+    "bounds": {"corpus": ["corpus/c09/widgets.json (Widget, Options)"], "options": "all 8 options of WidgetBuilder, one and two at a time", "arguments": "full-range ints, IEEE double, abstract strings, nil/empty/1-entry collections"},
+    "prepare": _gen_prepare,
+    "runs": _c09_runs,
 }
